@@ -115,6 +115,14 @@ struct alignas(4) Payload { uint8_t b[4]; };
 struct alignas(8) Payload { uint8_t b[16]; };
 #elif VX_PAYLOAD == 32
 struct alignas(16) Payload { uint8_t b[32]; };
+#elif VX_PAYLOAD == 3
+struct Payload { uint8_t b[3]; };                  // odd size, no alignment requirement
+#elif VX_PAYLOAD == 7
+struct Payload { uint8_t b[7]; };
+#elif VX_PAYLOAD == 8
+struct alignas(8) Payload { uint8_t b[8]; };       // size == alignment == 8
+#elif VX_PAYLOAD == 24
+struct alignas(8) Payload { uint8_t b[24]; };
 #else
 #error unsupported VX_PAYLOAD
 #endif
